@@ -24,11 +24,15 @@ TEXTS = [
     b'fn ( a , "b c" , d ) s = "x" sl += { y , z } include ( "inc.conf" ) p = n p = o pl = { } sec { include ( "inc2.conf" ) s = q }',
     b'/* note */ i = 5 # c\n t a { in b { q = r } in b { q = s } } t a { } pl = { u } i = 6',
     # the same sections re-opened from another input (file names recorded per section are replaced, not leaked)
+    b'p = x include ( "deep1.conf" ) p = never',
     b'sec { s = a p = s1 } include ( "inc3.conf" ) sec { s = b } t one { p = z } include ( "inc3.conf" ) sec { include ( "inc3.conf" ) }',
 ]
 TOKEN = re.compile(rb'"[^"]*"|/\*.*?\*/|#[^\n]*\n|\+=|[{}()=,]|[^\s{}()=,]+', re.S)
 FILES = ['file %s file %s' % (hx(b'inc.conf'), hx(b'p = inc1\npl += {inc2}\n')), 'file %s file %s' % (hx(b'inc2.conf'), hx(b'p = inc3\n')),
          'file %s file %s' % (hx(b'inc3.conf'), hx(b'sec { p = incsec in x { q = i3 } }\nt one { pl += {i4} }\n')),
+         'file %s file %s' % (hx(b'deep1.conf'), hx(b'p = d1\ninclude("deep2.conf")\n')),
+         'file %s file %s' % (hx(b'deep2.conf'), hx(b'pl += {d2}\ninclude("deep3.conf")\n')),
+         'file %s file %s' % (hx(b'deep3.conf'), hx(b'p = d3\ni = = 1\n')),
          'file %s dir' % hx(b'spdir'), 'file %s file %s' % (hx(b'spdir/only.conf'), hx(b'i = 1\n'))]
 
 
@@ -66,7 +70,7 @@ def generate(rng, tier):
                  'parse_buf 0 ' + hx(b'm { p = w pl += {x} }\n'), 'parse_buf 0 ' + hx(b'pl = {'), 'parse_buf 0 ' + hx(b'include("inc.conf")\n'),
                  'parse_file 0 ' + hx(b'only.conf'), 'setstr 0 %s - 0' % hx(b's'), 'print 0 0', 'setopt 0 %s %s' % (hx(b'sec|p'), hx(b'v4')),
                  'parse_file 0 ' + hx(b'inc3.conf'), 'parse_buf 0 ' + hx(b'sec { in x { } }\nt one { }\n'), 'parse_buf 0 ' + hx(b'sec { in x {'),
-                 'failat 1', 'failat 2', 'failat 0',
+                 'failat 1', 'failat 2', 'failat 0', 'parse_buf 0 ' + hx(b'include("deep1.conf")\n'), 'parse_buf 0 ' + hx(b'sec { include("deep2.conf") }\n'),
                  'setint 0 %s 1 0' % hx(b'i'), 'setmulti 0 %s %s %s' % (hx(b'pl'), hx(b'ok'), hx(b'-'))]
     for _ in range(150 if tier == 'quick' else 4000):
         n += 1
